@@ -353,6 +353,12 @@ pub fn run_c16(args: &Args) -> Report {
     let n = total / args.shards.max(1);
     rep.rule = "two kinds of single-source cases over an alphabet rich in directive look-alikes. (identity) sources without any directive line (the model's detectFrom rejects every line): oracle = output bytes equal the source lines joined by the source's line ending, final newline per option. (write-escape) a random text L (first line without leading blank, no trailing blanks; may contain real directive lines, tag names in use, look-alikes) escaped as `-TXTPP#write L0 / -L1 / ...`, optionally after a stored tag whose name occurs in L: oracle = output equals L joined by the line ending (+ the rest of the file). LF/CRLF, with/without final newline, both trailing settings. All cases also compared with the model. distinct_nontrivial = distinct (kind, line-set shape, le, final newline, trailing).".to_string();
     let mut runner = Runner::new(args, "c16");
+    // which lines of the alphabet are ordinary text is decided by the grammar (the Lean model of `detect_from`,
+    // proved equal to the declarative grammar of C15), never by the implementation under test
+    let verdicts = model.batch(&C16_LINES.iter().map(|l| format!("detect {}", crate::util::hexs(l))).collect::<Vec<_>>());
+    let ordinary: std::collections::HashSet<&str> =
+        C16_LINES.iter().zip(verdicts.iter()).filter(|(_, v)| v.trim() == "N").map(|(l, _)| *l).collect();
+    assert!(ordinary.len() >= 10, "model driver did not answer the detect requests: {verdicts:?}");
     let esc_extra = ["-TXTPP#run echo no", "TXTPP#include x", "-TXTPP#tag T", "  -TXTPP#write z", "TAG1 here", "-", "TXTPP#"];
     for i in 0..n {
         let crlf = rng.chance(1, 3);
@@ -366,7 +372,7 @@ pub fn run_c16(args: &Args) -> Report {
         let expected_core: String;
         let mut with_tag = false;
         if kind == "identity" {
-            lines.retain(|l| txtpp::verif::Directive::detect_from(l).is_none());
+            lines.retain(|l| ordinary.contains(l.as_str()));
             // "a\n" + "" without final newline is the same text as "a" with one: keep the representation unique
             while !final_nl && lines.last().map(|l| l.is_empty()).unwrap_or(false) {
                 lines.pop();
